@@ -36,6 +36,14 @@ def gen_crash(rng, tier):
         cut = rng.choice([None, 0, 1, 5, 40, 10 ** 6]) if at % 2 == 0 else None
         case["pre"][0][1].append([9, ["crashfile", at, cut], {"id": 0, "cls": 15, "text": 1, "sr": False}])
         out.append(case)
+    # the fixed feature programs (lib/progs.py CORPUS_FEATURES), crashed late and not at all
+    for c in progs.CORPUS_FEATURES:
+        if any(x[1][0] != "fields" for x in c["registry"]):
+            continue
+        for at in (10 ** 6, 2 * (2 + json.dumps(c["prog"]).count('"act"'))):
+            c2 = json.loads(json.dumps(c))
+            c2["pre"][0][1].append([9, ["crashfile", at, None], {"id": 0, "cls": 15, "text": 1, "sr": False}])
+            out.append(c2)
     return out
 
 
